@@ -2,6 +2,7 @@ package props
 
 import (
 	"fmt"
+	"os"
 	"sync/atomic"
 	"testing"
 	"testing/synctest"
@@ -21,7 +22,12 @@ func tick() int64 { return seq.Add(1) }
 // replaying prefix.  body builds the scenario (inside the bubble), starts its
 // driver threads with s.Go, calls s.Run() and returns its observation; it
 // must leave no goroutine behind (tear down with Release/AbortAll).
-func runSched(t *testing.T, prefix []int, expect []bsched.Point, maxSteps int, body func(s *bsched.Sched) any) *bsched.Exec {
+//
+// If a driver thread is still blocked after the body's tear-down, the bubble
+// can never be left (synctest would panic): onStuck is called with the
+// execution so that the violation is judged and recorded, then the worker
+// process ends after writing its result.
+func runSched(t *testing.T, prefix []int, expect []bsched.Point, maxSteps int, body func(s *bsched.Sched) any, onStuck ...func(x *bsched.Exec)) *bsched.Exec {
 	x := &bsched.Exec{}
 	synctest.Test(t, func(*testing.T) {
 		s := bsched.New(prefix, expect)
@@ -36,6 +42,14 @@ func runSched(t *testing.T, prefix []int, expect []bsched.Point, maxSteps int, b
 		x.Horizon = s.Horizon
 		x.Diverged = s.Diverged
 		x.Blocked = s.BlockedAt
+		if !s.DriversDone() {
+			x.Deadlock = true
+			for _, f := range onStuck {
+				f(x)
+			}
+			fmt.Println("worker: a blocked call could not be torn down; exiting after recording it")
+			os.Exit(0)
+		}
 	})
 	return x
 }
